@@ -1,0 +1,61 @@
+//! Forwarders to crate-private helpers, compiled only with the `verif-hooks` feature.
+//! Used by the external verification harness; adds no behaviour.
+#![allow(missing_docs)]
+
+use crate::Error;
+use ark_crypto_primitives::sponge::CryptographicSponge;
+use ark_ff::{FftField, Field, PrimeField};
+use ark_std::vec::Vec;
+
+pub fn calculate_t<F: PrimeField>(
+    sec_param: usize,
+    distance: (usize, usize),
+    codeword_len: usize,
+) -> Result<usize, Error> {
+    crate::linear_codes::verif_hooks_utils::calculate_t::<F>(sec_param, distance, codeword_len)
+}
+
+pub fn get_indices_from_sponge<S: CryptographicSponge>(
+    n: usize,
+    t: usize,
+    sponge: &mut S,
+) -> Result<Vec<usize>, Error> {
+    crate::linear_codes::verif_hooks_utils::get_indices_from_sponge(n, t, sponge)
+}
+
+pub fn reed_solomon<F: FftField>(msg: &[F], rho_inv: usize) -> Vec<F> {
+    crate::linear_codes::verif_hooks_utils::reed_solomon(msg, rho_inv)
+}
+
+pub fn tensor_vec<F: PrimeField>(values: &[F]) -> Vec<F> {
+    crate::linear_codes::verif_hooks_utils::tensor_vec(values)
+}
+
+pub fn get_num_bytes(n: usize) -> usize {
+    crate::linear_codes::verif_hooks_utils::get_num_bytes(n)
+}
+
+pub fn ceil_div(x: usize, y: usize) -> usize {
+    crate::utils::ceil_div(x, y)
+}
+
+pub fn ceil_mul(a: usize, b: (usize, usize)) -> usize {
+    crate::utils::ceil_mul(a, b)
+}
+
+pub fn tensor_prime<F: Field>(values: &[F]) -> Vec<F> {
+    crate::hyrax::verif_hooks_utils::tensor_prime(values)
+}
+
+pub fn flat_to_matrix_column_major<T: Copy>(flat: &[T], n: usize, m: usize) -> Vec<Vec<T>> {
+    crate::hyrax::verif_hooks_utils::flat_to_matrix_column_major(flat, n, m)
+}
+
+/// All outputs of the PST13 `Combinations` iterator for `original` and `len`.
+pub fn combinations(original: Vec<usize>, len: usize) -> Vec<Vec<usize>> {
+    crate::marlin::marlin_pst13_pc::verif_hooks_combinations(original, len)
+}
+
+pub fn vanishing_polynomial<F: Field>(points: &[F]) -> Vec<F> {
+    crate::streaming_kzg::verif_hooks_vanishing_polynomial(points)
+}
